@@ -260,6 +260,8 @@ def _estimators(spec, emit):
     names = ["Lasso", "ElasticNet", "WeightedLasso", "MCPRegression", "GroupLasso", "SparseLogisticRegression",
              "LinearSVC", "MultiTaskLasso"]
     for rep in range(spec["reps"]):
+        if rep % 5 == 4:
+            _reweighted(emit, seed, rep)
         name = names[rep % len(names)]
         cid = "EST/%s/r%d" % (name, rep)
         if not want(spec, cid):
@@ -314,3 +316,55 @@ def _estimators(spec, emit):
         if rep < len(names):
             rec["sample"] = dict(estimator=name, max_iter=mi, n_iter_=int(est.n_iter_), outer_iterations=n_outer)
         emit(rec)
+
+
+def _reweighted(emit, seed, rep):
+    """IterativeReweightedL1.loss_history_: one entry per reweighting iteration of THIS fit, each the objective
+    datafit + penalty of the iterate at that time (the last one: of coef_), also when the object is fitted again."""
+    from skglm.experimental.reweighted import IterativeReweightedL1
+    import skglm.penalties as P
+    import skglm.datafits as D
+    cid = "EST/IterativeReweightedL1/r%d" % rep
+    rng = rng_for("C17", seed, "EST", "reweighted", rep)
+    base = dict(id=cid, cell="estimator|IterativeReweightedL1", digest=digest(cid, seed), nontrivial=True,
+                count=dict(estimator_fits=0))
+    viols = []
+    try:
+        kind = str(rng.choice(["L0_5", "LogSum"]))
+        nrw = int(rng.integers(1, 6))
+        est = None
+        for fit_no in range(int(rng.integers(1, 4))):
+            n, p = int(rng.integers(15, 40)), int(rng.integers(4, 12))
+            X = C.make_X(rng, n, p, "gauss")
+            y = C.make_target(rng, X, "real")
+            a = 0.1 * float(np.max(np.abs(X.T @ y)) / n)
+            if est is None:
+                pen, refpen = (P.L0_5(a), R.RefPenalty("l05", alpha=a)) if kind == "L0_5" else \
+                    (P.LogSumPenalty(a, 1.0), R.RefPenalty("logsum", alpha=a, eps=1.0))
+                est = IterativeReweightedL1(D.Quadratic(), pen, n_reweights=nrw)
+            else:
+                a = float(refpen.p["alpha"])
+            with warnings.catch_warnings():
+                warnings.simplefilter("ignore")
+                est.fit(X, y)
+            base["count"]["estimator_fits"] += 1
+            hist = np.asarray(est.loss_history_, float)
+            prob = R.RefProblem(X, y, R.RefDatafit("quadratic"), refpen, False)
+            if len(hist) != nrw:
+                viols.append(dict(mechanism="history-length-differs-from-iterations", estimator="IterativeReweightedL1",
+                                  fit_no=fit_no, n_obj=int(len(hist)), n_outer=nrw,
+                                  detail="fit %d: len(loss_history_)=%d, n_reweights=%d" % (fit_no, len(hist), nrw)))
+            elif not R.close(float(hist[-1]), prob.objective(np.ravel(est.coef_)), rel=1e-9):
+                viols.append(dict(mechanism="last-history-entry-differs-from-returned-objective",
+                                  estimator="IterativeReweightedL1", fit_no=fit_no,
+                                  detail="fit %d: loss_history_[-1]=%r, objective of coef_=%r" % (
+                                      fit_no, float(hist[-1]), prob.objective(np.ravel(est.coef_)))))
+    except Exception as e:
+        viols.append(dict(mechanism="history-bookkeeping-raises", estimator="IterativeReweightedL1", exc=type(e).__name__,
+                          detail=repr(e)[:200]))
+    rec = dict(base)
+    if viols:
+        rec.update(status="violated", viol=viols[0], viols=viols)
+    else:
+        rec["status"] = "held"
+    emit(rec)
